@@ -1,6 +1,7 @@
 (* C16 - sink and visitor errors are reported to the caller, promptly and unchanged.
    Statements only; proofs are in Cbor/EncProofs.v. *)
-From SF Require Import Base.Prelude Core.Events Core.EventsProofs Core.AdapterProofs Cbor.Enc Cbor.EncProofs Json.Enc Json.EncProofs Ubjson.Enc Ubjson.EncProofs.
+From SF Require Import Base.Prelude Core.Events Core.EventsProofs Core.AdapterProofs Cbor.Enc Cbor.EncProofs Json.Enc Json.EncProofs Ubjson.Enc Ubjson.EncProofs Cbor.Parse.
+From SF Require Cbor.ParseVisitorProofs.
 
 (* CBOR encoder, every call sequence and every failure index k: when the writer
    fails at its k-th write (0-based) and keeps failing, and nevertheless every
@@ -44,3 +45,14 @@ Theorem C16_ubj_enc : forall evs e' k,
   ubj_run (uenc0 (Some k)) evs 0 = (e', None) -> (w_n (ue_w e') <= k)%nat.
 Proof. exact C16_ubj_enc0. Qed.
 Print Assumptions C16_ubj_enc.
+
+(* CBOR parser, every input, chunking and failure index k: the run with a visitor that fails
+   from its k-th call on delivers EXACTLY the first k+1 events of the unfailing run - nothing
+   after the failing event - and returns the visitor's error unchanged (or, when the visitor
+   never got that far, the same verdict as the unfailing run). *)
+Theorem C16_cbor_parser : forall k chunks evs0 e0,
+  run_chunks None chunks = Ok (evs0, e0) ->
+  run_chunks (Some k) chunks =
+    Ok (firstn (S k) evs0, if (length evs0 <=? k)%nat then e0 else eVisitor).
+Proof. exact SF.Cbor.ParseVisitorProofs.C16_cbor_parse_fail_spec. Qed.
+Print Assumptions C16_cbor_parser.
